@@ -1120,22 +1120,15 @@ func (d *Data) GetKeysInRange(ctx storage.VersionedCtx, keyBeg, keyEnd string) (
 			pos++
 		}
 	} else {
-		var begTKey, endTKey storage.TKey
-		begTKey, err = NewTKey(keyBeg)
-		if err != nil {
-			return nil, err
-		}
-		endTKey, err = NewTKey(keyEnd)
-		if err != nil {
-			return nil, err
-		}
+		// Keys are stored as decimal strings, which sort lexicographically ("100" < "9"), so a
+		// store range [keyBeg, keyEnd] is not the numeric range: scan all keys, filter numerically.
 		process_func := func(key string) {
 			bodyid, err := parseKeyStr(key)
 			if err == nil && bodyid >= bodyidBeg && bodyid <= bodyidEnd {
 				keys = append(keys, key)
 			}
 		}
-		err = d.processStoreKeysInRange(ctx, begTKey, endTKey, process_func)
+		err = d.processStoreAllKeys(ctx, process_func)
 	}
 	return
 }
@@ -1748,14 +1741,10 @@ func (d *Data) sendJSONValuesInRange(ctx storage.VersionedCtx, w http.ResponseWr
 		return 0, err
 	}
 
-	first, err := NewTKey(keyBeg)
-	if err != nil {
-		return 0, err
-	}
-	last, err := NewTKey(keyEnd)
-	if err != nil {
-		return 0, err
-	}
+	// Stored keys are decimal strings and sort lexicographically, so the on-disk path scans
+	// all annotations and filters by numeric body id, like the in-memory path.
+	first := storage.MinTKey(keyAnnotation)
+	last := storage.MaxTKey(keyAnnotation)
 	db, err := datastore.GetOrderedKeyValueDB(d)
 	if err != nil {
 		return 0, err
@@ -1814,6 +1803,9 @@ func (d *Data) sendJSONValuesInRange(ctx storage.VersionedCtx, w http.ResponseWr
 				bodyid, err := parseKeyStr(key)
 				if err != nil {
 					return err
+				}
+				if bodyid < bodyidBeg || bodyid > bodyidEnd {
+					return nil
 				}
 				writeCh <- writeData{bodyid, out}
 				return nil
